@@ -703,6 +703,10 @@ func (c *Ctx) callersPassFresh(f *ssa.Function, target ssa.Value) (bool, string)
 			}
 		}
 		if !p.FreshIn(arg) {
+			// memory that belongs to a per-call object (the call's graph, builder, state) is per-call too
+			if o, _, _ := ownerOf(write{target: arg}); own.perCall[o] {
+				continue
+			}
 			return false, fmt.Sprintf("call site %s passes memory that is not fresh there", p.InstrPos(s))
 		}
 	}
